@@ -147,4 +147,59 @@ theorem consume_outcome (fin : RErr) : ∀ (ps : List Nat) (acc : Bytes) (n : In
       simp only [herr] at h ⊢
       exact consume_outcome fin ps _ _ _ e h hne
 
+/-- progress of the underlying read: with room for at least one byte a non-exhausted source gets smaller
+    (one chunk less, or fewer bytes in its first chunk) -/
+theorem srcRead_progress (cs : List Bytes) (k : Nat) (hk : 0 < k) (h : (srcRead cs k).2.2 = false) :
+    (srcRead cs k).2.1.length + (srcRead cs k).2.1.flatten.length < cs.length + cs.flatten.length := by
+  cases cs with
+  | nil => simp [srcRead] at h
+  | cons c cs =>
+    simp only [srcRead, takeK_eq]
+    by_cases he : (c.drop k).isEmpty
+    · simp only [he, ite_true, List.length_cons, List.flatten_cons, List.length_append]; omega
+    · simp only [he, List.length_cons, List.flatten_cons, List.length_append, List.length_drop]
+      have : c.length > k := by
+        have h1 : c.drop k ≠ [] := by simpa [List.isEmpty_iff] using he
+        have h2 : (c.drop k).length ≠ 0 := fun h0 => h1 (List.eq_nil_of_length_eq_zero h0)
+        simp only [List.length_drop] at h2
+        omega
+      simp only [Bool.false_eq_true, ite_false, List.length_cons, List.flatten_cons, List.length_append, List.length_drop]
+      omega
+
+/-- a `Read` that reports no error has made the source smaller (positive buffer) -/
+theorem read_progress (n : Int) (plen : Nat) (hp : 0 < plen) (cs : List Bytes) (fin : RErr)
+    (h : (read n plen cs fin).1.err = none) :
+    (read n plen cs fin).2.2.length + (read n plen cs fin).2.2.flatten.length < cs.length + cs.flatten.length := by
+  unfold read at h ⊢
+  by_cases hn : n ≤ 0
+  · simp [hn] at h
+  · simp only [hn, ite_false] at h ⊢
+    have hask : 0 < (if (plen : Int) > n then n.toNat else plen) := by split <;> omega
+    have hpr := srcRead_progress cs (if (plen : Int) > n then n.toNat else plen) hask
+    generalize (srcRead cs (if (plen : Int) > n then n.toNat else plen)) = r at h hpr ⊢
+    by_cases he : r.2.2 = true
+    · exfalso
+      by_cases hf : fin = .eof <;> simp [he, hf] at h
+      split at h <;> simp at h
+    · exact hpr (by simpa using he)
+
+/-- **termination**: a consumer that keeps calling `Read` with non-empty buffers is stopped by an error
+    after at most (number of chunks + number of bytes in the source) successful calls -/
+theorem consume_terminates (fin : RErr) : ∀ (ps : List Nat) (acc : Bytes) (n : Int) (cs : List Bytes),
+    (∀ p ∈ ps, 0 < p) → cs.length + cs.flatten.length < ps.length →
+    (consume read fin ps acc n cs).2.2.2 ≠ none
+  | [], acc, n, cs => by intro _ h; simp at h
+  | p :: ps, acc, n, cs => by
+    intro hpos hlen
+    simp only [consume]
+    cases herr : (read n p cs fin).1.err with
+    | some e => simp
+    | none =>
+      simp only
+      apply consume_terminates fin ps
+      · intro q hq; exact hpos q (List.mem_cons_of_mem _ hq)
+      · have := read_progress n p (hpos p (List.mem_cons_self ..)) cs fin herr
+        simp only [List.length_cons] at hlen
+        omega
+
 end NettyVerif.ExactR
